@@ -62,6 +62,10 @@ static inline char *shim_transform_char(char *b, char *e, char *o, char (*f)(cha
     __CPROVER_decreases(n - i)
   { o[i] = f(b[i]); i++; }
   return o + n; }
+/* std::to_string / number formatting: the digits are opaque (libc), the length is between 1 and 330 bytes */
+static inline str str_from_num(double v) {
+  unsigned long n = nondet_ulong(); __CPROVER_assume(n >= 1 && n <= 330);
+  str r; r.data = (char *)malloc(n + 1); __CPROVER_assume(r.data != 0); r.data[n] = 0; r.len = n; return r; }
 static inline str *str_assign(str *d, sv s) { *d = str_from_sv(s); return d; }
 static inline str str_substr(const str *s, unsigned long pos, unsigned long n) {
   if (pos > s->len) { __exc = EXC_out_of_range; return str_empty(); }
